@@ -311,16 +311,3 @@ Definition is_nonfail_trigger (e : event) : bool :=
 Definition chk_reports (pre : list event) (e : event) : bool :=
   match e with ERunReturn ResNil => existsb is_nonfail_trigger pre | _ => true end.
 Definition c04_reports (c : config) (t : list event) : bool := all_check chk_reports t.
-
-(* ---------------------------------------------------------------- C03 (pending error) *)
-
-(* [c03_pending] above does not hold of every schedule (SupPending.c03_pending_refuted): when the
-   supervisor's context is cancelled while a failure is queued, the readiness wait may take the
-   ctx.Done branch and the start-up loop goes on.  With the exception C03 itself makes ("unless the
-   supervisor's context has already been cancelled") it holds. *)
-Definition chk_pending_nc (pre : list event) (e : event) : bool :=
-  match e with
-  | ERunCall _ => cancel_evidence pre || negb (err_then_quiet false pre)
-  | _ => true
-  end.
-Definition c03_pending_nc (c : config) (t : list event) : bool := all_check chk_pending_nc t.
